@@ -89,9 +89,21 @@ def prefit_history(kp, case):
             kp.fit_transformers(X, n_inputs=alt, episode_feature=case['ep'])
         else:
             kp.fit_transformers(X, n_inputs=case['nu'], episode_feature=not case['ep'])
-        return True
     except Exception:  # noqa
         return False
+    # ... and used: every read-only entry point is called once on the earlier fit (anything memoised per
+    # object would now hold values of that fit)
+    for call in (lambda: kp.transform(X), lambda: kp.inverse_transform(kp.transform(X)), lambda: kp.lift(X),
+                 lambda: kp.lift_state(np.asarray(X)[:, :(1 if kp.episode_feature_ else 0) + kp.n_states_in_]),
+                 lambda: kp.lift_input(X), lambda: kp.retract(kp.lift(X)),
+                 lambda: kp.retract_state(kp.lift_state(np.asarray(X)[:, :(1 if kp.episode_feature_ else 0) + kp.n_states_in_])),
+                 lambda: kp.retract_input(kp.lift_input(X)),
+                 lambda: kp.get_feature_names_out(), lambda: kp.get_feature_names_in(), lambda: kp.n_samples_in(3)):
+        try:
+            call()
+        except Exception:  # noqa
+            pass
+    return True
 
 
 def fit_case(case):
